@@ -1709,9 +1709,9 @@ impl Vm {
                 .range_cache
                 .iter()
                 .enumerate()
-                .max_by(|first, second| first.1 .1.elapsed().cmp(&second.1 .1.elapsed()))
+                .min_by_key(|e| e.1 .1)
                 .map(|e| e.0)
-                .expect("Expect to find max given non-empty Vec.");
+                .expect("Expect to find min given non-empty Vec.");
 
             self.range_cache[stale_pos] = (range, time::Instant::now());
         } else {
